@@ -270,7 +270,7 @@ def examine(ctx, b, case, model_exe, idx):
             if ft.startswith(("type:", "multi", "foreign", "mixed")):
                 ctx.hist("features", ft)
     o = oracle(case, res, names)
-    if o is not None:
+    if o is not None and len(ctx.violations) < 3:
         key, what = o
         mc = case
         from vlib import findings as F
@@ -305,7 +305,7 @@ def run(ctx):
         "compared with the observed pass suffixes",
         "identifiers are ASCII (the lexer rejects anything else); ToUpper/ToLower are the C-locale functions",
     ]
-    ctx.lean("StepModel.Props.C17", exes=["m_c17"], extractors=["scanner"])
+    ctx.lean("StepModel.Props.C17", exes=["m_c17"], extractors=["scanner", "exphash"])
     b = ctx.build("plain")
     model_exe = ctx.model_exe("m_c17")
     if not os.path.exists(model_exe):
@@ -344,7 +344,7 @@ def replay(ctx, path):
     d = json.load(open(path))
     r = d.get("replay", d)
     ctx._disagree = []
-    ctx.lean("StepModel.Props.C17", exes=["m_c17"], extractors=["scanner"])
+    ctx.lean("StepModel.Props.C17", exes=["m_c17"], extractors=["scanner", "exphash"])
     b = ctx.build("plain")
     fn = r["file_name"]
     if r["express"].startswith("<shipped file"):
